@@ -8,6 +8,7 @@ Behaviour = basename of the executable that exec'd this file (see the stubs next
           blocks until somebody reads the pipe; it cannot be seen "finished" by polling alone)
   dup_records (valid rows, but the record of input 0 is written twice: a stale copy first, the valid one last)
   garbage_extra (one record too many), garbage_header (the last header is not an input index)
+  garbage_short (row 1 has lost its last residue: one symbol too few, everything else intact)
   garbage_swap (equal row lengths, right headers; row 0 has one symbol too many, row 1 one too few: the totals agree)
 Environment (inherited through Popen):
   C20_GATE     path; the tool blocks until this file exists (so the harness decides when it "finishes")
@@ -134,6 +135,11 @@ def main():
     if behaviour == "garbage_length":
         # equal row lengths, right headers, but row 0 has one residue more than input sequence 0
         rows[0][1] = rows[0][1][:-1] + "A"
+    if behaviour == "garbage_short":
+        # a residue of input 1 got lost: its last letter is a gap now (row lengths, headers and all other rows intact)
+        r1 = rows[1][1]
+        last = max(i for i, ch in enumerate(r1) if ch != "-")
+        rows[1][1] = r1[:last] + "-" + r1[last + 1:]
     if behaviour == "garbage_swap":
         # the errors cancel: +1 symbol in row 0 (a trailing gap becomes a letter), -1 in row 1 (its last letter becomes a gap)
         rows[0][1] = rows[0][1][:-1] + "A"
